@@ -98,7 +98,9 @@ def okRevStrand (P : Str) (alph : List Char) (l : Location) (ans : Option Str) :
       else
         ans == expectExtract P alph (reverseLoc l) &&
         (if nonOverlap loc.blocks && loc.strand.isDirectional &&
-              (match charsAt P (bases loc) with | some cs => noU cs | none => false) then
+              (match charsAt P (bases loc) with
+               | some cs => noU cs && (compAll alph cs).isSome     -- letters of the alphabet, none of them U/u
+               | none => false) then
            ans == optBind (expectExtract P alph l) (revcomp alph)
          else true)
 
@@ -116,6 +118,7 @@ def okSplit (P : Str) (alph : List Char) (l : Location) (k : Int) (ans : Option 
           decide (0 ≤ k) && decide (k ≤ loc.len) then
         match ans, expectExtract P alph l with
         | some (a, b), some e => a ++ b == e && a.length == k.toNat
+        | none, none => true          -- a letter without complement on the minus strand: both refuse
         | _, _ => false
       else true
 
